@@ -102,6 +102,8 @@ def compare_code(ctx, name, calc, calc6, d, tag=''):
     L6 = calc6.Lij(*bf)
     ext, err, _ = oc.extrapolate(calc, bf, sizes_for(calc, ctx.quick))
     os_tag = 'originstates' if len(calc.OSindices) > 0 else 'no-originstates'
+    if len(calc.sitelist) > 1 and 'preS' in d and (np.ptp(d['eneS']) > 1e-12 or np.ptp(d['preS']) > 1e-12):
+        os_tag += ':nonuniform-solute-sites'
     rep = dict(calculator=name, nthermo=calc.Nthermo, data=vc.jsonable(d))
     out = []
     for k, lab in enumerate(LABELS):
@@ -121,12 +123,16 @@ def compare_code(ctx, name, calc, calc6, d, tag=''):
 
 def run(ctx):
     exact_tie(ctx)
-    names = ['sq2d', 'fcc', 'tri2d', 'rect2d-2site'] if ctx.quick else \
-            ['sq2d', 'fcc', 'bcc', 'sc', 'hcp', 'tri2d', 'honey2d', 'oblique2d', 'triclinic', 'rumpled', 'rect2d-2site']
+    names = ['sq2d', 'fcc', 'oblique2d', 'rect2d-2site', 'twoW', 'ortho'] if ctx.quick else \
+            ['sq2d', 'fcc', 'bcc', 'sc', 'hcp', 'tri2d', 'honey2d', 'oblique2d', 'triclinic', 'rumpled', 'rect2d-2site', 'twoW', 'ortho', 'mono']
     for name in names:
         calc, calc6 = vc.calculator(name, 1, 4), vc.calculator(name, 1, 6)
         for t in range(2 if ctx.quick else 5):
             d = vc.rand_data(ctx.rng, calc, spread=(1.0 if t % 2 == 0 else 2.5))
+            if len(calc.sitelist) > 1 and t % 2 == 1:
+                # several Wyckoff sets: also the case of a solute with the same data on every set
+                for k in ('preS', 'eneS'): d[k] = np.full_like(d[k], d[k][0])
+                d.update(calc.makeLIMBpreene(**d))
             res = compare_code(ctx, name, calc, calc6, d)
             ctx.case(('code', name, t, str(d['eneT1'])), nontrivial=True,
                      sample=dict(calculator=name, deviations={lab: [float(dev), float(tol)] for lab, dev, tol in res}))
